@@ -9,6 +9,7 @@ import (
 	_ "time/tzdata"
 
 	"go.lstv.dev/util/date"
+	"verif/firstuse"
 	"verif/libdefaults"
 	"verif/mc"
 	"verif/oracle"
@@ -246,6 +247,7 @@ func probeFlight(p flightArg) (string, string) {
 func main() {
 	mc.Main("C01", "every real calendar date of the stated year range x {extended, basic} x every output path x every input path; "+
 		"a point is one (date, format, MaxInputLength); non-trivial = month end, leap day, year boundary or 5+ digit year", func(r *mc.Run) {
+		firstuse.Phase(r, map[string][]string{"date": {"format", "parse"}})
 		r.Reset = reset
 		reset()
 		p := mc.NewProbe(r, "roundtrip", setup, probe)
